@@ -191,6 +191,10 @@ class AsyncIOClient(ABC):
                         return
 
                     await self._update_state(State.CONNECTED)
+                    if self._state == State.CLOSED:
+                        # close() ran while the status callback was executing: it owns the teardown
+                        self.logger.info("Object terminated while reporting CONNECTED.")
+                        return
                     self.logger.info("Connected to the gateway.")
     
                     # Cancel any existing receive loop task
